@@ -80,6 +80,8 @@ pub enum Target {
     Ghost(u32),
     Invalid,
     SelfAddr,
+    /// the address the next plain instantiation will get (predicted before the step): a "future" contract
+    Next,
 }
 
 #[derive(Clone, Debug, Serialize, Deserialize, PartialEq, Eq)]
@@ -188,6 +190,9 @@ pub enum Op {
     WasmSudo { target: Target, node: Node, via_router: bool },
     /// App::sudo(SudoMsg::Bank(Mint))
     Mint { to: Target, coins: Vec<CoinSpec> },
+    /// mint with literal denominations and amounts given as (mantissa, shift): mantissa << shift
+    /// (amounts near 2^127, or more than a hundred denominations)
+    MintRaw { to: Target, coins: Vec<(String, u64, u8)> },
     /// Executor helpers
     HInstantiate { sender: u32, code: u32, slot: u32, node: Node, funds: Vec<CoinSpec>, label: String, admin: Option<Target>, salt: Option<Bytes> },
     HExecute { sender: u32, target: Target, node: Node, funds: Vec<CoinSpec> },
